@@ -88,9 +88,9 @@ def _task() -> str:
 class Env:
     _n = 0
 
-    def __init__(self, cancel_at: int | None = None, late: bool = False) -> None:
+    def __init__(self, cancel_at: int | None = None, late: bool = False, key: str | None = None) -> None:
         Env._n += 1
-        self.key = f"c11://env{Env._n}"
+        self.key = key or f"c11://env{Env._n}"
         _ENVS[self.key] = self
         self.log: list[dict[str, Any]] = []
         self.points = 0
@@ -444,8 +444,8 @@ async def _watchdog(env: Env) -> None:
 
 
 async def _run_one(hist: list[dict[str, Any]], db: Path, cancel_at: int | None, late: bool,
-                   stall: bool = False) -> dict[str, Any]:
-    env = Env(cancel_at, late)
+                   stall: bool = False, key: str | None = None) -> dict[str, Any]:
+    env = Env(cancel_at, late, key)
     env.stall = stall
     _CURRENT.append(env)
     try:
@@ -502,9 +502,11 @@ def run_file(jobs: list[dict[str, Any]]) -> list[dict[str, Any]]:
         db = Path(d) / "scan.sqlite"
         t0 = float(int(time.time()) - 1)
         results = []
+        Env._n += 1
+        key = f"c11://target{Env._n}"  # the runs of one database file scan the SAME target (re-scans)
         for job in jobs:
             results.append(asyncio.run(_run_one(job["hist"], db, job.get("cancel_at"), bool(job.get("late")),
-                                                bool(job.get("stall")))))
+                                                bool(job.get("stall")), key)))
         rows, runs = _decode_rows(db, t0)
         mine = {r["scan_run"] for r in results if r["scan_run"] is not None}
         stray = sum(1 for r in rows if r["run"] not in mine)
